@@ -72,7 +72,9 @@ def main(c):
         exp = []
         with open(inp, "w") as f:
             f.write("\n".join(header(cfg)) + "\n")
-            for w in walks:
+            for wi, w in enumerate(walks):
+                if wi % 211 == 0:
+                    c.sample([op_line(cfg, stp["op"]) for stp in w][:40])
                 f.write("init\n")
                 exp.append(None)
                 for stp in w:
@@ -117,6 +119,7 @@ def main(c):
     c.cov["parts"]["replay"] = {"behaviours": total, "steps": steps}
     c.cov["traces_validated_against_impl"] = total
     c.cov["distinct_nontrivial"] = total
+    c.cov["evaluations"] = steps                           # operations executed on the real TableManager
     c.cov["exhaustive"] = False
     c.cov["rule"] = ("random behaviours of Rib.tla over 2 prefixes, 3 peers (one with two successive sessions / two path ids), attribute "
                      "classes that tie / win / lose, 2-3 shared next hops, import-policy rejection; distinct = replayed behaviours")
